@@ -1198,6 +1198,8 @@ fn gen_case(rng: &mut Rng, idx: usize) -> Vec<String> {
     let mut sent: Vec<u32> = Vec::new();
     let mut ka_times: Vec<u64> = vec![now];
     let mut silent: Vec<bool> = vec![false; n]; // black-holed links get no uplink traffic
+    let base_rtt: Vec<u64> = (0..n).map(|_| *rng.pick(&[5u64, 20, 60, 150, 400])).collect();
+    let mut needs_rereg: Vec<bool> = up.iter().map(|u| !*u).collect();
     for _ in 0..steps {
         now += match rng.below(10) {
             0 => 0,
@@ -1212,6 +1214,23 @@ fn gen_case(rng: &mut Rng, idx: usize) -> Vec<String> {
             let t = last_hk.min(now);
             ops.push(format!("hk {t}"));
             ka_times.push(t);
+            // the simulated receiver: echoes keepalives on links that are not black-holed and answers
+            // re-registrations of links that came back
+            for j in 0..n {
+                if silent[j] {
+                    continue;
+                }
+                if rng.chance(17, 20) {
+                    let rtt = base_rtt[j] + rng.below(10);
+                    if t + rtt <= now {
+                        ops.push(format!("uplink {} {} {}", t + rtt, j + 1, hexs(&create_keepalive_packet(t).to_vec())));
+                    }
+                }
+                if needs_rereg[j] && rng.chance(7, 10) && t + base_rtt[j] <= now {
+                    ops.push(format!("uplink {} {} {}", t + base_rtt[j], j + 1, hexs(&SRTLA_TYPE_REG3.to_be_bytes())));
+                    needs_rereg[j] = false;
+                }
+            }
         }
         if now.saturating_sub(last_flush) >= 15 {
             last_flush = now;
@@ -1233,6 +1252,16 @@ fn gen_case(rng: &mut Rng, idx: usize) -> Vec<String> {
                     }
                     if sent.len() > 64 {
                         sent.remove(0);
+                    }
+                }
+                // the receiver acknowledges most of what it got, on some live link
+                if rng.chance(3, 4) && !sent.is_empty() {
+                    let live: Vec<usize> = (0..n).filter(|j| !silent[*j]).collect();
+                    if !live.is_empty() {
+                        let j = *rng.pick(&live);
+                        let k = rng.range(1, 10).min(sent.len() as u64) as usize;
+                        let l: Vec<u32> = sent[sent.len() - k..].to_vec();
+                        ops.push(format!("uplink {} {} {}", now + 1, j + 1, hexs(&create_ack_packet(&l))));
                     }
                 }
             }
@@ -1307,14 +1336,17 @@ fn gen_case(rng: &mut Rng, idx: usize) -> Vec<String> {
             34 => {
                 // a link goes silent (black hole) or comes back
                 silent[i] = !silent[i];
-                if !silent[i] && rng.chance(1, 2) {
-                    ops.push(format!("uplink {now} {} {}", i + 1, hexs(&SRTLA_TYPE_REG3.to_be_bytes())));
+                if !silent[i] {
+                    needs_rereg[i] = true;
                 }
             }
             35 => {
                 // receiver forgot the group / link: REG_ERR or REG_NGP mid-stream, maybe followed by recovery
                 let ty = *rng.pick(&[SRTLA_TYPE_REG_ERR, SRTLA_TYPE_REG_NGP]);
                 ops.push(format!("uplink {now} {} {}", i + 1, hexs(&ty.to_be_bytes())));
+                if ty == SRTLA_TYPE_REG_ERR {
+                    needs_rereg[i] = true;
+                }
                 if rng.chance(1, 2) {
                     ops.push(format!("uplink {} {} {}", now + 1, i + 1, hexs(&create_keepalive_packet(now).to_vec())));
                 }
